@@ -519,6 +519,77 @@ func c03(r *mon.Run) {
 				t.Nontrivial("kw:" + strconv.Itoa(i))
 			}})
 	}
+	// white space is insignificant BETWEEN tokens only: two expressions that differ in the white space inside a raw string, a quoted
+	// identifier or a literal - also behind an escaped delimiter inside it - are different expressions, whichever was searched first
+	{
+		inner := [][2]string{{"it's late", "it's  late"}, {"a'b c", "a'b\tc"}, {"x 'y' z", "x 'y'  z"}, {"p\"q r", "p\"q  r"}, {"m`n o", "m`n  o"}, {"one two", "one  two"}, {"tail ", "tail  "}, {" lead", "  lead"}, {"a\\' b", "a\\'  b"}, {"nl\nx", "nl\n x"}}
+		ws = append(ws, mon.Workload{Name: "white-space-inside-lexemes-is-significant", N: len(inner) * 3 * 2, Batch: 10,
+			Do: func(i int, t *mon.Tally) {
+				pr := inner[i/6]
+				if i%2 == 1 {
+					pr = [2]string{pr[1], pr[0]}
+				}
+				mk := func(sv string) *gen.Expr {
+					switch i / 2 % 3 {
+					case 0:
+						if !gen.RawSpellable(sv) {
+							return gen.Cmp("==", gen.Field("title"), gen.LitVal(sv))
+						}
+						return gen.Cmp("==", gen.Field("title"), gen.Raw(sv))
+					case 1:
+						return gen.QField(sv)
+					default:
+						return gen.MultiList(gen.LitVal(sv), gen.LitVal(map[string]interface{}{sv: sv}))
+					}
+				}
+				doc := map[string]interface{}{"title": pr[1], pr[0]: "first", pr[1]: "second"}
+				cx := &caseCtx{r, t, "white-space-inside-lexemes-is-significant", i}
+				for _, sv := range []string{pr[0], pr[1], pr[0], pr[1]} {
+					tree := mk(sv)
+					if _, _, ok := cx.runBoth(tree, gen.Spell(tree), doc); !ok {
+						return
+					}
+				}
+				t.Nontrivial("wsin:" + strconv.Itoa(i))
+			}})
+		// a Parser used for an expression that ends inside a raw string / quoted identifier / literal, then for a good one
+		bads := []string{"name == 'it\\'s", "'a\\'b\\'", "\"q\\\"r", "`\"x\\`y", "'open", "a.'r\\'", "[ 'x\\'y', 'z\\'"}
+		goods := []*gen.Expr{gen.Cmp("==", gen.Field("name"), gen.Raw("bob")), gen.MultiList(gen.Raw("a'b"), gen.Raw("c")), gen.Raw("it's"), gen.QField("k k"), gen.LitJSON(`"lit"`), gen.Func("join", gen.Raw("'"), gen.MultiList(gen.Raw("x"), gen.Raw("y'z")))}
+		ws = append(ws, mon.Workload{Name: "a-parser-used-after-an-expression-that-ends-inside-a-lexeme", N: len(bads) * len(goods), Batch: 10,
+			Do: func(i int, t *mon.Tally) {
+				bad, good := bads[i/len(goods)], goods[i%len(goods)]
+				ge := gen.Spell(good)
+				want, ow := parseSexpr(ge)
+				t.Eval()
+				if ow.Panicked || ow.Err != nil {
+					return
+				}
+				var got, again string
+				o := mon.Guard(func() (interface{}, error) {
+					p := jmespath.NewParser()
+					p.Parse(bad)
+					a, err := p.Parse(ge)
+					if err != nil {
+						return nil, err
+					}
+					got = jmespath.VerifSexpr(a)
+					p.Parse(bad)
+					p.Parse(bad)
+					b, err := p.Parse(ge)
+					if err != nil {
+						return nil, err
+					}
+					again = jmespath.VerifSexpr(b)
+					return nil, nil
+				})
+				if o.Panicked || o.Err != nil || got != want || again != want {
+					r.Violate(&mon.Violation{Workload: "a-parser-used-after-an-expression-that-ends-inside-a-lexeme", Index: i, API: "Parser.Parse", Expr: bad + "   then   " + ge,
+						Expected: "the tree a fresh Parser gives for the second expression: " + want, Observed: got + " / " + again + " " + o.String(), Class: "a reused Parser parses differently after a failed parse"})
+					return
+				}
+				t.Nontrivial("pbad:" + strconv.Itoa(i))
+			}})
+	}
 	// a syntax tree belongs to whoever asked for it: parsing the next expression on the same Parser does not change a tree handed
 	// out earlier (every ordered pair of 60 small operator trees, the first tree rendered again after the second parse)
 	pairN := 60
@@ -557,5 +628,13 @@ func c03(r *mon.Run) {
 			}
 			t.Nontrivial("pair:" + strconv.Itoa(i))
 		}})
+	// workloads that look for state a PROCESS keeps between one-shot searches run first: a store that stops taking entries once it
+	// is full (after a few hundred expressions) would otherwise be full before they start
+	for k, w := range ws {
+		if w.Name == "white-space-inside-lexemes-is-significant" {
+			ws = append(append([]mon.Workload{w}, ws[:k]...), ws[k+1:]...)
+			break
+		}
+	}
 	r.Exec(ws...)
 }
